@@ -4,6 +4,9 @@
 cd "$(dirname "$0")/.."
 tier=${1:-quick}
 if [ -n "$(git -C /repo status --porcelain)" ]; then echo "/repo not clean"; exit 2; fi
+# evidence/ describes runs on the UNCHANGED tree: keep it out of the way while seeded trees are checked
+rm -rf .evidence.keep && cp -a evidence .evidence.keep
+trap 'rm -rf evidence && mv .evidence.keep evidence' EXIT
 for d in seeded/S*/; do
   id=$(basename $d); prop=${id#*-}
   if ! git -C /repo apply --check "$PWD/$d/patch.diff" 2>/dev/null; then echo "$id DOES-NOT-APPLY"; continue; fi
